@@ -275,9 +275,10 @@ def gen_pipeline(draw, tier="quick", kind="srf"):
     n = draw(st.integers(2, 7))
     pos = draw(gens.point_cloud(dim, n_min=n, n_max=n, kinds=("cloud",)))
     case = {"kind": kind, "spec": spec, "pos": pos, "seed": draw(st.integers(0, 2**31 - 1))}
-    if kind in ("krige", "condsrf") and draw(st.integers(0, 2)) == 0:
+    if kind in ("krige", "condsrf", "srf", "vector") and draw(st.integers(0, 2)) == 0:
         # the object is built with another orientation; the model is then re-oriented in place and refreshed as documented
-        case["start"] = {"anis": draw(st.lists(logfloat(0.15, 6.0), min_size=dim - 1, max_size=dim - 1)), "angles": draw(_angles(geo.n_angles(dim)))}
+        case["start"] = {"anis": draw(st.lists(logfloat(0.15, 6.0), min_size=dim - 1, max_size=dim - 1)), "angles": draw(_angles(geo.n_angles(dim))),
+                         "use_first": draw(st.booleans())}
     if kind in ("krige", "condsrf", "covx"):
         ncond = draw(st.integers(1 if kind == "covx" else 2, 6))
         if kind == "covx":
@@ -318,6 +319,10 @@ def _mk_reoriented(m_a, spec, case, cp, rec):
     rec.label("reoriented_in_place")
     m0 = build_model(dict(spec, anis=start["anis"], angles=start["angles"]))
     k = _mk_krige(m0, case, cp)
+    if start.get("use_first"):
+        # the object has been evaluated on the target points before; they are then re-used without being passed again
+        k(np.array(case["pos"], dtype=float).reshape(spec["dim"], -1))
+        rec.label("stored_positions_reused")
     k.model.anis = spec["anis"]
     k.model.angles = spec["angles"]
     k.set_condition()  # the documented refresh after in-place model changes
@@ -342,7 +347,21 @@ def check_pipeline(case, rec):
         kw = {"mode_no": case["mode_no"]}
         if kind == "vector":
             kw["mean_velocity"] = case["mean_u"]
-        f_a = lib(lambda: gs.SRF(m_a, generator=gen, seed=case["seed"], **kw)(pos), _tags=tags)
+        start = case.get("start")
+        if start:
+            # one SRF object: evaluated, its model re-oriented in place, evaluated again on the stored (or the given) positions
+            rec.label("reoriented_in_place")
+            srf_a = gs.SRF(build_model(dict(spec, anis=start["anis"], angles=start["angles"])), generator=gen, seed=case["seed"], **kw)
+            srf_a(pos)
+            srf_a.model.anis = spec["anis"]
+            srf_a.model.angles = spec["angles"]
+            if start.get("use_first"):
+                rec.label("stored_positions_reused")
+                f_a = lib(lambda: srf_a(), _what="SRF on stored positions", _tags=tags)
+            else:
+                f_a = lib(lambda: srf_a(pos), _tags=tags)
+        else:
+            f_a = lib(lambda: gs.SRF(m_a, generator=gen, seed=case["seed"], **kw)(pos), _tags=tags)
         f_i = lib(lambda: gs.SRF(m_i, generator=gen, seed=case["seed"], **kw)(pos_iso), _tags=tags)
         # phase rounding: |k| |x| eps per mode, sqrt(N) modes
         kmax = 60.0 / spec["len_scale"] * (spec.get("rescale") or 1.0) + 60.0
@@ -359,7 +378,10 @@ def check_pipeline(case, rec):
         cp_iso = M @ cp
         k_a = lib(_mk_reoriented, m_a, spec, case, cp, rec, _tags=tags)
         k_i = lib(_mk_krige, m_i, case, cp_iso, _tags=tags)
-        f_a, v_a = lib(k_a, pos, _tags=tags)
+        if (case.get("start") or {}).get("use_first"):
+            f_a, v_a = lib(k_a, _what="Krige.__call__ on stored positions", _tags=tags)
+        else:
+            f_a, v_a = lib(k_a, pos, _tags=tags)
         f_i, v_i = lib(k_i, pos_iso, _tags=tags)
         zs = max(1.0, float(np.max(np.abs(case["cond_val"]))))
         kc = float(np.linalg.cond(np.linalg.pinv(k_a._krige_mat)))
@@ -376,7 +398,10 @@ def check_pipeline(case, rec):
         cp_iso = M @ cp
         k_a = lib(_mk_reoriented, m_a, spec, case, cp, rec, _tags=tags)
         k_i = lib(_mk_krige, m_i, case, cp_iso, _tags=tags)
-        c_a = lib(lambda: gs.CondSRF(k_a, mode_no=case["mode_no"])(pos, seed=case["seed"]), _tags=tags)
+        if (case.get("start") or {}).get("use_first"):
+            c_a = lib(lambda: gs.CondSRF(k_a, mode_no=case["mode_no"])(seed=case["seed"]), _what="CondSRF on stored positions", _tags=tags)
+        else:
+            c_a = lib(lambda: gs.CondSRF(k_a, mode_no=case["mode_no"])(pos, seed=case["seed"]), _tags=tags)
         c_i = lib(lambda: gs.CondSRF(k_i, mode_no=case["mode_no"])(pos_iso, seed=case["seed"]), _tags=tags)
         zs = max(1.0, float(np.max(np.abs(case["cond_val"]))))
         kc = float(np.linalg.cond(np.linalg.pinv(k_a._krige_mat)))
